@@ -118,7 +118,20 @@ var addCmd = &cobra.Command{
 				if err != nil {
 					return fmt.Errorf("fail to get file path under directory: %w", err)
 				}
+				curPath, err := os.Getwd()
+				if err != nil {
+					return fmt.Errorf("fail to get current directory: %w", err)
+				}
 				for _, filePath := range filePaths {
+					// skip the file which is the target of excluding path
+					relPath, err := filepath.Rel(curPath, filePath)
+					if err != nil {
+						return fmt.Errorf("fail to get relative path: %w", err)
+					}
+					if client.Ignore.IsIncluded(strings.ReplaceAll(relPath, `\`, "/"), client.Idx) {
+						continue
+					}
+
 					if err := add(client.RootGoitPath, filePath, client.Idx); err != nil {
 						return err
 					}
